@@ -366,9 +366,9 @@ func (r *rewriter) post(c *astutil.Cursor) bool {
 			}
 		case r.pkgIdent(n.X, "time"):
 			switch n.Sel.Name {
-			case "After", "Sleep", "Now":
+			case "After", "Sleep", "Now", "Since", "Until":
 				c.Replace(sel(vs, n.Sel.Name))
-			case "NewTimer", "NewTicker", "AfterFunc", "Tick", "Since", "Until":
+			case "NewTimer", "NewTicker", "AfterFunc", "Tick":
 				die("%s: time.%s is not supported by the scheduler", r.labelPos(n), n.Sel.Name)
 			}
 		}
